@@ -57,7 +57,13 @@ def getReq (j : Json) : Req :=
       | _ => none),
     onException := (match j.getObjVal? "onException" with
       | .ok (.arr _) => some (natList j "onException")
-      | _ => none) }
+      | _ => none),
+    aux := (match getStr j "aux" with
+      | "ok" => .ok | "userFault" => .userFault | "userCrash" => .userCrash | "serFail" => .serFail | _ => .none),
+    auxOnErrors := getBool j "auxOnErrors",
+    userHeaders := (getArr j "userHeaders").toList.map (fun h =>
+      match getStr h "k" with
+      | "list" => HVal.list (getNat h "n") | "tuple" => HVal.tuple (getNat h "n") | _ => HVal.str) }
 
 def optNatJson : Option Nat → Json
   | none => Json.null
@@ -72,6 +78,8 @@ def evJson : Ev → Json
   | .chunk n b => Json.arr #["chunk", n, b]
   | .ctxClosed => Json.arr #["closed"]
   | .wsgiClose => Json.arr #["wsgiClose"]
+  | .aux => Json.arr #["aux"]
+  | .hdr k b => Json.arr #["hdr", k, b]
   | .crash c => Json.arr #["crash", c]
 
 def step (j : Json) : Json :=
